@@ -297,6 +297,7 @@ func execIcpt(c config, hist []int) hk.Step {
 	x := &icptRun{c: c, m: &icptModel{buf: map[uint16][]*ipkt{}}, feed: &hk.FeedReader{}, out: make([]byte, 1500)}
 	var fail *failure
 	done := false
+	var sibling func(seq uint16) *failure
 	res := vsched.Run(vsched.Options{Strategy: vsched.BackgroundFirst{}, MaxSteps: 400000}, func() {
 		x.call = "NewInterceptor"
 		f, err := jitterbuffer.NewInterceptor()
@@ -311,6 +312,28 @@ func execIcpt(c config, hist []int) hk.Step {
 		}
 		x.info = &interceptor.StreamInfo{SSRC: 0x1818}
 		x.rd = x.i.BindRemoteStream(x.info, x.feed)
+		// a second interceptor from the same factory (another peer connection) receives one packet of its own
+		// stream before and one after the history: it is buffering on its own (two packets are below any start
+		// count) and nothing it receives may show in the first one
+		sib, err := f.NewInterceptor("sibling")
+		if err != nil {
+			fail = failf("harness-failure", "NewInterceptor: %v", err)
+			return
+		}
+		sibFeed := &hk.FeedReader{}
+		sibRd := sib.BindRemoteStream(&interceptor.StreamInfo{SSRC: 0x2828}, sibFeed)
+		sibling = func(seq uint16) *failure {
+			sibFeed.Next = hk.RawRTP(96, seq, uint32(seq)*90, 0x2828, []byte{7, 7})
+			n, _, err := sibRd.Read(make([]byte, 1500), interceptor.Attributes{})
+			if err != jitterbuffer.ErrPopWhileBuffering {
+				return failf("sibling-interceptor-not-independent", "an interceptor built by the same factory for another connection received packet %d of its own stream (its only traffic: two packets): Read returned n=%d err=%v, want ErrPopWhileBuffering", seq, n, err)
+			}
+			return nil
+		}
+		if f := sibling(7); f != nil {
+			fail, done = f, true
+			return
+		}
 		for k, a := range script {
 			if _, f := x.apply(a); f != nil {
 				f.msg = fmt.Sprintf("in the scripted prefix, step %d of %q: %s", k+1, c.Script, f.msg)
@@ -338,6 +361,10 @@ func execIcpt(c config, hist []int) hk.Step {
 			}
 		}
 		step.Key = hk.DeepHash(x.i) ^ x.m.hash()
+		if f := sibling(8); f != nil {
+			fail, done = f, true
+			return
+		}
 		x.call = "Close"
 		_ = x.i.Close()
 		done = true
